@@ -268,6 +268,10 @@ def series_variants(tier):
     out.append(rep(base, name='shared', share='rename'))
     out.append(rep(base, index=I(('a', 'b', 'c'), '<U1', name='shared-ix'), share='index-rename'))
     out.append(rep(base, cls='SeriesHE'))
+    # two views into ONE parent buffer that start at the same address and differ in stride: the first row and the first column of a square block
+    sq_ix = I(('a', 'b', 'c'), '<U1')
+    out.append(S((1, 2, 3), 'int64', sq_ix, name='a') | {'share': 'square-row'})
+    out.append(S((1, 4, 7), 'int64', sq_ix, name='a') | {'share': 'square-col'})
     out.append(rep(base, dtype='object'))
     out.append(rep(base, dtype='object', values=(1.5, None, 3.0)))
     out.append(rep(base, dtype='object', values=(1.5, NAN, 'x')))
@@ -374,6 +378,8 @@ def bus_variants(tier):
     out.append(rep(base, index=I(('f1', 'f2'), '<U2', name='q')))
     out.append(rep(base, name='other'))
     out.append(rep(base, name=None))
+    for sh in ('store-lazy', 'store-partly-loaded', 'store-max-persist-1'):
+        out.append(rep(base, share=sh))
     return out
 
 
@@ -429,6 +435,24 @@ def run_case(case, ctx):
             objs.append(base_obj.relabel(base_obj.index.rename(d['index']['name'])))
         elif sh == 'columns-rename':
             objs.append(base_obj.relabel(columns=base_obj.columns.rename(d['columns']['name'])))
+        elif sh in ('square-row', 'square-col'):
+            if 'square' not in _CACHE:
+                sq = np.arange(1, 10, dtype=np.int64).reshape(3, 3)
+                sq.flags.writeable = False
+                _CACHE['square'] = sf.Frame(sq, index=('a', 'b', 'c'), columns=('a', 'b', 'c'))
+            v = _CACHE['square'].iloc[0] if sh == 'square-row' else _CACHE['square'].iloc[:, 0]
+            objs.append(v if d['cls'] == 'Series' else sf.SeriesHE(v.values, index=v.index, name=v.name, own_index=True))
+        elif sh in ('store-lazy', 'store-partly-loaded', 'store-max-persist-1'):
+            # the same Frames read back from a store: not loaded / one loaded / bounded persistence
+            import os
+            from mc.props.c17 import workdir
+            path = os.path.join(workdir(), 'c10_bus_%d.zip' % os.getpid())
+            if not os.path.exists(path):
+                base_obj.to_zip_pickle(path)
+            b = sf.Bus.from_zip_pickle(path, max_persist=1 if sh == 'store-max-persist-1' else None).rename(d['name'])
+            if sh == 'store-partly-loaded':
+                b.iloc[0]
+            objs.append(b)
         else:
             objs.append(build(d))
     n = len(objs)
